@@ -1004,6 +1004,20 @@ def _advance_head_front(state: State, heads: List[FlowHead]) -> List[FlowHead]:
                     event = flow_state.started_event(head.matching_scores)
                     _push_internal_event(state, event)
 
+                    # An instance of an activated flow that arrived at its first waiting
+                    # statement ends the series of immediate failures of earlier instances
+                    if flow_state.activated > 0:
+                        reference_flow_state = flow_state
+                        if (
+                            flow_state.parent_uid in state.flow_states
+                            and state.flow_states[flow_state.parent_uid].flow_id
+                            == flow_state.flow_id
+                        ):
+                            reference_flow_state = state.flow_states[
+                                flow_state.parent_uid
+                            ]
+                        reference_flow_state.immediate_failures = 0
+
                     # Avoid an activated flow that was just started from finishing
                     # since this would end in an infinite loop
                     if flow_finished and flow_state.activated > 0:
